@@ -158,9 +158,13 @@ def run(ctx):
     job, cells = make_job(seed=ctx.seed)
     ppjob, ppcells = make_pp_job(seed=ctx.seed)
     ctx.log(f'{len(cells)} method cells in one library, {len(ppcells)} in a library over a proto-plus dependency package')
-    res, ppres = engine.run_jobs([job, ppjob])
+    # a sample of the cells once more with client logging switched on
+    dcells = [dict(c, id='debug-logging/' + c['id']) for c in cells[::5]]
+    djob = dict(job, id='c03-debug-logging', probe_args=dict(job['probe_args'], cells=dcells, debug_logging=True))
+    res, ppres, dres = engine.run_jobs([job, ppjob, djob])
     consume(ctx, res, cells)
     consume(ctx, ppres, ppcells, floor=False)
+    consume(ctx, dres, dcells, floor=False)
     ctx.extra['bound'] = 'complete product of arity x request location x response location; name cells; all request forms; valuations {empty, each field alone, all}'
     ctx.assume('the asyncio stream-unary method returns an awaitable call object (api-core); the probe awaits it to obtain the reply')
 
@@ -204,6 +208,12 @@ def consume(ctx, res, cells, floor=True):
 
 def replay(ctx, state):
     sub = None if state['cells'] == 'all' else state['cells']
+    if sub and all(c.startswith('debug-logging/') for c in sub):
+        job, cells = make_job([c[len('debug-logging/'):] for c in sub], seed=ctx.seed)
+        cells = [dict(c, id='debug-logging/' + c['id']) for c in cells]
+        job = dict(job, probe_args=dict(job['probe_args'], cells=cells, debug_logging=True))
+        res, = engine.run_jobs([job])
+        return consume_replay(ctx, res, cells)
     for mk in (make_job, make_pp_job):
         job, cells = mk(sub, seed=ctx.seed)
         if cells:
